@@ -478,7 +478,14 @@ def run(rep):
         lines.append(model_line(C, fn, extra, zs))
         meta.append(dict(fn=fn, extra=extra, mode=mode, shape=shape, zs=zs, impl=impl, pytype=pytype))
 
-    out = common.run_driver(lines)
+    try:
+        out = common.run_driver(lines)
+    except common.ModelUnavailable as ex:
+        # no model: the correspondence cannot be compared; every oracle stream below evaluates the property on the real
+        # code against mpmath and runs regardless
+        out = []
+        rep.violation('model-unavailable', 'the Lean model of C16 could not be run (%s): gepard.special.* was not compared with it; '
+                      'the oracle streams ran' % str(ex)[:300], dict(reason=str(ex)[:300]), found_input=False)
     worst = {}
     searched = {}
     for line, m, o in zip(lines, meta, out):
